@@ -26,7 +26,7 @@ def run(ck, prop="C01"):
     outs, crashes = vlib.run_lines_resilient([impl], [c["line"] for c in cases], timeout=1500)
     for bad, info in crashes[:2]:
         ck.report(dict(input=cases[bad]["line"], error=info), oracle="remeshing_returns_or_throws", key="refine:crash",
-                  what="the refinement driver died (signal/timeout) on this history: " + info[:200])
+                  what="the refinement driver died (signal) or did not return within the per-history time budget (exit 3) on this history: " + info[:200])
     fails = []; queries = []; qmeta = []; vq = []; vmeta = []
     nstates = 0; nchanged = 0; evhist = {}; nexc = 0
     for ci, (c, out) in enumerate(zip(cases, outs)):
